@@ -161,7 +161,7 @@ func runReqMode(t []string, lenOnly bool) string {
 	corr := int32(c.int())
 	nparts := int(c.int())
 	var parts []kgo.VerifC18Part
-	nrec := 0
+	nrec, hdrHeavy := 0, 0
 	for i := 0; i < nparts; i++ {
 		var p kgo.VerifC18Part
 		p.Topic = string(unTok(c.next()))
@@ -182,6 +182,15 @@ func runReqMode(t []string, lenOnly bool) string {
 			}
 			p.Records = append(p.Records, r)
 			nrec++
+			hb := 0
+			for _, h := range r.Headers {
+				hb += len(h.Key) + len(h.Value)
+			}
+			hx.St.Inc("rec.headers." + bucket(nh))
+			hx.St.Inc("rec.header-bytes." + bucketBytes(hb))
+			if hb > 31 {
+				hdrHeavy++
+			}
 		}
 		parts = append(parts, p)
 	}
@@ -283,6 +292,32 @@ func runReqMode(t []string, lenOnly bool) string {
 	if len(out.Batches) == 0 {
 		sb.WriteByte('_')
 	}
+	// how close the record batches come to the configured maximum (the batch proper is wireLength-4 bytes)
+	for _, bs := range out.Batches {
+		for _, b := range bs {
+			switch {
+			case v >= 3:
+				hx.St.Inc("record-batch.fill-of-batch-max." + fillNear(int(b.WireLength)-4, int(batchMax)))
+			case v == 2:
+				hx.St.Inc("message-set.fill-of-batch-max." + fillNear(int(b.V1WireLength), int(batchMax)))
+			default:
+				hx.St.Inc("message-set.fill-of-batch-max." + fillNear(int(b.V1WireLength)-8*b.NumRecords, int(batchMax)))
+			}
+		}
+	}
+	pvClass := "known=written"
+	switch {
+	case pv < 0 && v < 3:
+		pvClass = "unknown,written-v0-2"
+	case pv < 0:
+		pvClass = "unknown,written-v3+"
+	case int16(pv) != v:
+		pvClass = "known-other-than-written"
+	}
+	hx.St.Inc("op.req.sink-version." + pvClass)
+	if hdrHeavy > 0 {
+		hx.St.Inc("op.req.with-header-heavy-record.sink-version." + pvClass)
+	}
 	fmt.Fprintf(&sb, " nreq=%d", len(out.Reqs))
 	maxOver := 0
 	for _, r := range out.Reqs {
@@ -361,6 +396,38 @@ func bucket(n int) string {
 		return "17-64"
 	default:
 		return "65+"
+	}
+}
+
+func bucketBytes(n int) string {
+	switch {
+	case n == 0:
+		return "0"
+	case n <= 31:
+		return "1-31"
+	case n <= 100:
+		return "32-100"
+	case n <= 300:
+		return "101-300"
+	default:
+		return "301+"
+	}
+}
+
+func fillNear(n, limit int) string {
+	switch {
+	case n > limit:
+		return "over"
+	case n == limit:
+		return "exact"
+	case n+8 >= limit:
+		return "within8"
+	case n+40 >= limit:
+		return "within40"
+	case 2*n >= limit:
+		return "half+"
+	default:
+		return "low"
 	}
 }
 
